@@ -296,6 +296,21 @@ type Obligation struct {
 // mergeElemsBridge: reads of a merged element heap through at() are the reads of the branch that was taken. Implied by
 // the definition of the merged heap (an ite); stated over at() so that E-matching carries element facts across the join.
 func (x *Xlat) mergeElemsBridge(out *State, key string, m, cond, va, vb *Term) {
+	if strings.HasPrefix(key, "MapVal$") || strings.HasPrefix(key, "MapDom$") {
+		// maps: the same bridge over the raw nested selects
+		k1, inner, ok := splitArrSort(m.Sort)
+		if !ok {
+			return
+		}
+		k2, _, ok := splitArrSort(inner)
+		if !ok {
+			return
+		}
+		ab, ib := Const("a!", k1), Const("i!", k2)
+		lhs := Sel(Sel(m, ab), ib)
+		out.facts = append(out.facts, Forall([]Bind{{"a!", k1}, {"i!", k2}}, Eq(lhs, Ite(cond, Sel(Sel(va, ab), ib), Sel(Sel(vb, ab), ib))), []*Term{lhs}))
+		return
+	}
 	if !strings.HasPrefix(key, "Elems$") {
 		return
 	}
